@@ -1,0 +1,75 @@
+// SPDX-License-Identifier: Apache-2.0
+//
+// Verification hooks (compiled only with `--cfg pickle_fuzzer_verif`):
+// thin public wrappers around the generator's internal steps so that a harness
+// can walk the decision tree with forced choices and inspect the simulated state.
+
+use color_eyre::Result;
+
+use super::source::GenerationSource;
+use super::Generator;
+use crate::opcodes::OpcodeKind;
+use crate::verif::kind_code;
+
+impl Generator {
+    /// opcodes the generator considers legal in the current state
+    pub fn verif_valid_opcodes(&self) -> Vec<OpcodeKind> {
+        self.get_valid_opcodes()
+    }
+
+    /// the guard of one opcode
+    pub fn verif_can_emit(&self, opcode: OpcodeKind) -> bool {
+        self.can_emit(opcode)
+    }
+
+    /// one body step with a forced opcode choice
+    pub fn verif_emit(&mut self, opcode: OpcodeKind, source: &mut GenerationSource) -> Result<()> {
+        self.emit_and_process(opcode, source)?;
+        crate::verif::record(self, "body", Some(opcode));
+        Ok(())
+    }
+
+    /// the header step
+    pub fn verif_emit_proto(&mut self, source: &mut GenerationSource) {
+        self.emit_proto(source);
+        crate::verif::record(self, "proto", Some(OpcodeKind::Proto));
+    }
+
+    /// the stack-collapse phase
+    pub fn verif_cleanup(&mut self) {
+        self.cleanup_for_stop();
+    }
+
+    /// the final STOP
+    pub fn verif_emit_stop(&mut self) {
+        self.emit_opcode(OpcodeKind::Stop);
+        crate::verif::record(self, "stop", Some(OpcodeKind::Stop));
+    }
+
+    /// a whole generation driven by a caller-supplied entropy source
+    pub fn verif_generate_with(&mut self, source: &mut GenerationSource) -> Result<Vec<u8>> {
+        self.generate_internal(source)
+    }
+
+    /// kind codes of the simulated stack, bottom first
+    pub fn verif_stack_kinds(&self) -> Vec<u8> {
+        self.state
+            .stack
+            .inner
+            .iter()
+            .map(|c| kind_code(&c.borrow()))
+            .collect()
+    }
+
+    /// (key, kind code) of the simulated memo, ascending keys
+    pub fn verif_memo_kinds(&self) -> Vec<(usize, u8)> {
+        let mut v: Vec<(usize, u8)> = self
+            .state
+            .memo
+            .iter()
+            .map(|(k, c)| (*k, kind_code(&c.borrow())))
+            .collect();
+        v.sort_unstable();
+        v
+    }
+}
